@@ -377,6 +377,10 @@ def banner_tabulation(ctx, report, c, p):
         ('SSH-2.0-OpenSSH_8.9\r\n', '', ((2, 0), 'OpenSSH_8.9', None)),
         ('SSH-1.99-srv\n', '', ((1, 99), 'srv', None)),
         ('SSH-2.0-srv two words\r\n', '\x00\x00\x01\x0c', ((2, 0), 'srv', 'two words')),
+        # the first SP separates software version and comments; everything after it is the comment, blanks included
+        ('SSH-2.0-srv  built with spaces\r\n', '', ((2, 0), 'srv', ' built with spaces')),
+        ('SSH-2.0-srv \r\n', '', ((2, 0), 'srv', '')),
+        ('SSH-2.0-srv\tx y\r\n', '', ((2, 0), 'srv\tx', 'y')),
         ('SSX-2.0-srv\r\n', '', 'InvalidValue'),
         ('ssh-2.0-srv\r\n', '', 'InvalidValue'),
         ('SSH-2.0-%s\r\n' % fill, '', ((2, 0), fill, None)),
